@@ -31,6 +31,9 @@ func init() {
   container a {
     leaf al { type string; }
     leaf-list words { type string; default "u v"; }
+    container d {
+      leaf dq { type string; }
+    }
     container b {
       leaf bl { type string; }
       container c {
@@ -45,6 +48,17 @@ func init() {
           leaf v { type string; }
         }
       }
+    }
+  }
+  container a2 {
+    container b {
+      leaf bq { type string; }
+      container c {
+        leaf x { type string; }
+      }
+    }
+    container d {
+      leaf u { type string; }
     }
   }
   container iface {
